@@ -276,6 +276,8 @@ def check_reassigned(ctx, c):
 
 RULE = RULE + " " + ("Since seeded round 4 facet reassigned: a UnitsSystem object that has (or has not) already served in a conversion - as target system, inside a target Units, or inside the source's units - is optionally copied, then re-assigned component by component through the attribute or item setters, and used again; the result must be the exact factor for the system it now describes.")
 
+RULE = RULE + " " + ('Since seeded round 5 target strings also come with the exponent of a base spread over several factors (m.m/s/s).')
+
 FACETS = [
     Facet("table", check_table, enumerate=enum_table, shards=(8, 16)),
     Facet("generated", check_generated, strategy=gen_strategy, examples=(4000, 200000), shards=(8, 16)),
